@@ -162,6 +162,38 @@ def main():
                         rec["status"] = "DETECTED" if code == 1 else "MISSED"
             print(json.dumps(rec)); out.write(json.dumps(rec) + "\n"); out.flush()
         reset()
+    elif mode == "replays":
+        # every detected mutant: its first replay file must exit 1 on the patched tree and 0 on the clean tree
+        keep = "/tmp/selftest/replays-keep"
+        sh(f"rm -rf {keep}; mkdir -p {keep}")
+        saved = []
+        for (mid, prop, f, old, new, what) in M:
+            reset()
+            if apply_edits(repo, [(f, old, new)] + M_EXTRA.get(mid, [])):
+                continue
+            ok, _ = build_harness()
+            if not ok:
+                continue
+            code, sigs = run_check(prop)
+            if code != 1:
+                continue
+            files = sorted(os.listdir(f"{v}/replays/{prop}")) if os.path.isdir(f"{v}/replays/{prop}") else []
+            if not files:
+                continue
+            src = f"{v}/replays/{prop}/{files[0]}"
+            dst = f"{keep}/{mid}.json"
+            sh(f"cp {src} {dst}")
+            r = sh(f"{v}/build/harness/release/avra-verif replay {dst}", env=env, cwd=v)
+            rec = {"replay_of": mid, "property": prop, "patched_exit": r.returncode, "time": time.strftime("%F %T")}
+            saved.append((mid, prop, dst, rec))
+            print(json.dumps(rec))
+        reset()
+        build_harness()
+        for mid, prop, dst, rec in saved:
+            r = sh(f"{v}/build/harness/release/avra-verif replay {dst}", env=env, cwd=v)
+            rec["clean_exit"] = r.returncode
+            rec["status"] = "REPLAY-OK" if (rec["patched_exit"], r.returncode) == (1, 0) else "REPLAY-MISMATCH"
+            print(json.dumps(rec)); out.write(json.dumps(rec) + "\n"); out.flush()
     elif mode == "benign":
         for (bid, edits, what) in BENIGN:
             reset()
